@@ -30,6 +30,7 @@ type Clause struct {
 
 type LoopSpec struct {
 	Inv     []Clause
+	Entry   []Clause // obligations at loop entry only (not assumed, not invariants)
 	Dec     *Node
 	BodyEns []Clause
 	Mods    []*Node // extra havoc
@@ -435,6 +436,12 @@ func applyDirective(c *Contract, t string, line int) error {
 				return err
 			}
 			ls.BodyEns = append(ls.BodyEns, cl)
+		case "entry":
+			cl, err := mk(body)
+			if err != nil {
+				return err
+			}
+			ls.Entry = append(ls.Entry, cl)
 		case "let":
 			k := strings.Index(body, "=")
 			if k < 0 {
